@@ -295,7 +295,7 @@ def oracle(ctx, n_override=None):
                 _report(ctx, s2, case, [[d["kind"], d["key"], d["a"], d["b"]] for d in diffs],
                         f"guard case {name}; return codes {r['inc'].returncode} / {r['scr'].returncode}")
     # (3) generated histories
-    n = n_override or ctx.scale(240, 6000)
+    n = n_override or ctx.scale(240, 4000)
     items = [_gen_item(_item_seed(ctx, i), i) for i in range(n)]
     t0 = time.time()
     results = e3.pool_map(_run_item, items, nproc=ctx.scale(10, 12))
@@ -341,7 +341,13 @@ def oracle(ctx, n_override=None):
 
         def keep(c, sig=sig):
             return sig.split(":after:")[0] in {k.split(":after:")[0] for k in co.case_signatures(c)}
-        small, runs = co.shrink(case, keep, budget_s=ctx.scale(6 if named else 30, 60), max_runs=400)
+        if named:
+            # minimal witnesses of the named findings are in corpus/C01 and fixed_cases()
+            small, runs = case, 0
+        else:
+            # bounded by the number of runs, not by time: the minimised history (hence the
+            # trigger part of the signature) must not depend on the load of the machine
+            small, runs = co.shrink(case, keep, budget_s=1e9, max_runs=ctx.scale(80, 300))
         if not named:
             # generic signature: name the trigger from the minimised history
             final = co.case_signatures(small, with_triggers=True)
@@ -354,7 +360,7 @@ def oracle(ctx, n_override=None):
 
 
 def search(ctx):
-    oracle(ctx, n_override=ctx.scale(1500, 12000))
+    oracle(ctx, n_override=ctx.scale(1500, 8000))
 
 
 def replay(ctx, obj):
